@@ -22,3 +22,11 @@ def validate(module, cfg, traces, tag, strip=("cfg",), workers=1, timeout=1800):
     r["postcondition_ok"] = not r.get("postcondition_false") and ("is violated" not in r["out"])
     r["trace_file"] = path
     return r, rejected
+
+
+def rerun(payload):
+    """--replay of a rejected trace: validate that single trace again"""
+    r, rejected = validate(payload["module"], payload["module"], [payload["trace"]], "replay_" + payload["module"], strip=("label", "cfg"))
+    if rejected or not r["postcondition_ok"]:
+        return [{"prop": None, "cls": "trace-rejected", "msg": "trace still rejected (matched %s)" % (rejected,)}]
+    return []
